@@ -330,3 +330,6 @@ _quick("C18", "C18_willwindow", "connections A and B announce the same client id
 _quick("C05", "C05_unlockwait", "holder A and a queued request W; A unlocks with the unlock-then-wait flag (0x08), Timeout 3 s and an expiry in seconds / milliseconds / minutes; W is granted, A's re-queued request is answered TIMEOUT exactly once, in [T, T+2s], through the real per-second sweeps (a millisecond sweeper, if started, is run at its time)", ["-witness", "3"])
 
 _quick("C06", "C06_waitgrant", "a request with E = 3 s queued behind a holder whose hold ends 1..6 s later (by unlock or by its own expiry); the hold granted from the queue ends with exactly one EXPRIED in [grant + E, grant + E + 2 s], tick by tick through the real sweeps", ["-witness", "4"])
+
+_quick("C07", "C07_valexpired", "three keys take holds carrying a value, persisted at once; the first / middle / last of them (or none) with E = 1 s, the others 120 s; restart 5 s later: the short hold is gone, every other hold is restored with its own value", ["-witness", "4"])
+_quick("C08", "C07_valexpired", "(also under C07) an uncut log whose value file holds the frame of a record the loader skips as run out: the later records are recovered with their own values — the recovered state is the state of the complete records", ["-witness", "4"])
